@@ -6,6 +6,7 @@ import Golib.Proof.C12Atomic
 import Golib.Proof.C12KVSpec
 import Golib.Proof.C12Expand
 import Golib.Proof.C12Order
+import Golib.Proof.C12ProgramsKV
 import Golib.Gen.FactsC12
 
 namespace Golib.C12
@@ -161,6 +162,137 @@ example : ∃ c₁ c₂ : Conf KV Loc,
   have s5 : Step d₄ d₅ := Step.mk d₄ 1 (rdLookup 1) [aRUnlock] rfl trivial
   exact ⟨d₃, d₅, Reach.step (Reach.step (Reach.step Reach.refl s1) s2) s3,
     Reach.step (Reach.step Reach.refl s4) s5, rfl, rfl, rfl, rfl⟩
+
+/-- `c12_atomic_programs` (atomicity for SEQUENCES of calls per goroutine): goroutine `t`
+executes the program `calls t` — a list of call bodies, each well locked with exactly one
+critical section (`CallOK`); the actions are functions of the goroutine-local state, so the
+arguments of a later call may depend on the results of earlier ones.  In EVERY reachable
+configuration of EVERY schedule, with `c.order` = the goroutine ids in the order in which
+critical sections were entered and `Q` = the SEQUENTIAL history that performs, for each entry
+of `t` in that order, `t`'s NEXT call as one uninterrupted function (`seqExecP`):
+* program order: `Q` has performed exactly `count t c.order` calls of `t`, in the order of
+  its program, and never more than the program has;
+* whenever no goroutine is inside a write section, the shared state IS `Q`'s state;
+* a goroutine that has finished has performed all its calls and its local state (all its
+  results) is exactly the one it has in `Q`. -/
+theorem c12_atomic_programs {σ μ : Type} (s₀ : σ) (calls : Nat → List (List (Act σ μ)))
+    (init : Nat → μ) (h : ∀ t, ∀ b ∈ calls t, CallOK b)
+    (c : Conf σ μ) (hr : Reach (Conf.init s₀ (fun t => (calls t).flatten) init) c) :
+    (∀ t, (seqExecP calls init s₀ c.order).idx t = c.order.count t ∧
+          c.order.count t ≤ (calls t).length) ∧
+    ((∀ t, (c.th t).mode ≠ .w) → c.sh = (seqExecP calls init s₀ c.order).sh) ∧
+    (∀ t, (c.th t).rest = [] →
+        c.order.count t = (calls t).length ∧
+        (seqExecP calls init s₀ c.order).loc t = (c.th t).loc) := by
+  have hi := PInv.reach calls init s₀ h hr
+  refine ⟨fun t => ⟨seqExecP_idx calls init s₀ c.order t, ?_⟩, hi.shFree, fun t hdone => ?_⟩
+  · rw [← seqExecP_idx calls init s₀ c.order t]
+    obtain ⟨_, _, hc⟩ := hi.thr t
+    rcases hc with ⟨_, _, _, hlt, _⟩ | ⟨_, _, hle, _, _⟩
+    · exact Nat.le_of_lt hlt
+    · exact hle
+  · have := (hi.thr t).finished calls h hdone
+    rw [← seqExecP_idx calls init s₀ c.order t]
+    exact this
+
+/-- `c12_realtime_order_programs` (`c12_realtime_order` lifted to programs): the entry log
+only grows.  If in a reachable configuration `c₁` the `j`-th call of `t` has already entered
+its section (in particular: has returned) and the `i`-th call of `u` has not, then in every
+later configuration `c₂` the `j`-th entry of `t` lies in the prefix `c₁.order` and the `i`-th
+entry of `u` behind it: the sequential history of `c12_atomic_programs` performs a call that
+returned before another one was invoked BEFORE that other one — the histories are
+linearizable, not merely serializable. -/
+theorem c12_realtime_order_programs {σ μ : Type} (c₀ c₁ c₂ : Conf σ μ) (_hr₁ : Reach c₀ c₁)
+    (hr₂ : Reach c₁ c₂) (t u j i : Nat) (ht : j ≤ c₁.order.count t) (hu : c₁.order.count u < i)
+    (hu₂ : i ≤ c₂.order.count u) :
+    ∃ post, c₂.order = c₁.order ++ post ∧ j ≤ c₁.order.count t ∧
+      c₁.order.count u < i ∧ i ≤ c₁.order.count u + post.count u := by
+  obtain ⟨post, hpost⟩ := hr₂.order_prefix
+  refine ⟨post, hpost.symm, ht, hu, ?_⟩
+  rw [← hpost, List.count_append] at hu₂
+  exact hu₂
+
+/-- SafeKV instance of `c12_atomic_programs`: goroutine `t` performs the SafeKV calls
+`calls t` one after the other (`pbody`: the modelled = extracted body of the method, preceded
+by loading the call's own initial local state and followed by recording its result). -/
+theorem c12_safekv_programs (s₀ : KV) (calls : Nat → List Call) (init : Nat → PLoc)
+    (c : Conf KV PLoc)
+    (hr : Reach (Conf.init s₀ (fun t => ((calls t).map pbody).flatten) init) c) :
+    (∀ t, (seqExecP (fun t => (calls t).map pbody) init s₀ c.order).idx t = c.order.count t ∧
+          c.order.count t ≤ (calls t).length) ∧
+    ((∀ t, (c.th t).mode ≠ .w) →
+        c.sh = (seqExecP (fun t => (calls t).map pbody) init s₀ c.order).sh) ∧
+    (∀ t, (c.th t).rest = [] → c.order.count t = (calls t).length ∧
+        (seqExecP (fun t => (calls t).map pbody) init s₀ c.order).loc t = (c.th t).loc) := by
+  have := c12_atomic_programs s₀ (fun t => (calls t).map pbody) init (fun t b hb => by
+    obtain ⟨cl, _, rfl⟩ := List.mem_map.1 hb
+    exact pbody_callOK cl) c hr
+  simpa using this
+
+/-- One step of that sequential history IS the per-method function: the `i`-th call `cl` of
+`t` maps the current map `s` to `(seqCall cl s).1` and records `(seqCall cl s).2` as its
+result.  So every clause of `c12_body_spec` (Get/Set/SetNx/SetX/Delete/Has/Len as plain-map
+functions; Keys/Values/Range/All/GetWithMap/Map = one snapshot of the whole map at the
+call's entry) holds verbatim for every call of every program in every concurrent execution. -/
+theorem c12_programs_step_is_seqCall (calls : Nat → List Call) (q : SeqSt KV PLoc) (t : Nat)
+    (cl : Call) (hc : (calls t)[q.idx t]? = some cl) :
+    seqStepP (fun t => (calls t).map pbody) q t =
+      { sh := (seqCall cl q.sh).1
+        loc := upd q.loc t ((seqCall cl q.sh).2, (seqCall cl q.sh).2 :: (q.loc t).2)
+        idx := upd q.idx t (q.idx t + 1) } :=
+  seqStepP_safekv calls q t cl hc
+
+/-- Corollary for programs (`SetX` never creates a key): goroutines whose programs consist of
+`SetX` calls only (any keys, any values, any number): a key absent at the start is absent
+in every reachable configuration in which no write section is open. -/
+theorem c12_programs_setx_never_creates (s₀ : KV) (calls : Nat → List Call) (init : Nat → PLoc)
+    (hx : ∀ t, ∀ cl ∈ calls t, ∃ k' v, cl = Call.setX k' v) (k : Int) (hk : s₀.get k = none)
+    (c : Conf KV PLoc)
+    (hr : Reach (Conf.init s₀ (fun t => ((calls t).map pbody).flatten) init) c)
+    (hfree : ∀ t, (c.th t).mode ≠ .w) : c.sh.get k = none := by
+  rw [(c12_safekv_programs s₀ calls init c hr).2.1 hfree]
+  exact foldl_setX_absent calls hx k c.order ⟨s₀, init, fun _ => 0⟩ hk
+
+/-- Corollary for programs (one winner among concurrent `SetNx` on an absent key): any
+number of goroutines, each performing any number of `SetNx(k, ·)` calls, on a map without
+`k`.  In every reachable configuration a goroutine that has finished has won (`SetNx`
+answered `true`) exactly once if it made the FIRST entry of all, and never otherwise:
+exactly one call wins, whatever the schedule. -/
+theorem c12_programs_setnx_one_winner (s₀ : KV) (k : Int) (hk : s₀.get k = none)
+    (calls : Nat → List Call) (hx : ∀ t, ∀ cl ∈ calls t, ∃ v, cl = Call.setNx k v)
+    (init : Nat → PLoc) (hinit : ∀ t, (init t).2 = [])
+    (c : Conf KV PLoc)
+    (hr : Reach (Conf.init s₀ (fun t => ((calls t).map pbody).flatten) init) c)
+    (t0 : Nat) (o : List Nat) (ho : c.order = t0 :: o) :
+    ∀ t, (c.th t).rest = [] → wins (c.th t).loc = if t = t0 then 1 else 0 := by
+  intro t hdone
+  have hat := c12_safekv_programs s₀ calls init c hr
+  have h0 : 0 < (calls t0).length := by
+    have := (hat.1 t0).2
+    rw [ho, List.count_cons_self] at this
+    omega
+  rw [← (hat.2.2 t hdone).2, ho]
+  have := foldl_setNx_absent calls k hx t0 o ⟨s₀, init, fun _ => 0⟩ hk h0 t
+  simp only [seqExecP]
+  rw [this]
+  simp [wins, hinit t]
+
+/-- Non-vacuity of the program theorems: every SafeKV call is a `CallOK` program body, e.g.
+the program `[SetNx(1,5), Get(1), Keys()]`. -/
+example : ∀ b ∈ [Call.setNx 1 5, Call.get 1, Call.keys].map pbody, CallOK b := by
+  intro b hb
+  obtain ⟨cl, _, rfl⟩ := List.mem_map.1 hb
+  exact pbody_callOK cl
+
+/-- Non-vacuity (computed): goroutine 0 runs `[SetNx(1,5), Get(1)]`, goroutine 1 runs
+`[SetNx(1,7)]`, entry order `[0, 1, 0]`: the sequential history ends with map `{1:5}`,
+goroutine 0 won its `SetNx` and then read 5, goroutine 1 lost. -/
+example :
+    let calls : Nat → List Call := fun t => if t = 0 then [.setNx 1 5, .get 1] else [.setNx 1 7]
+    let Q := seqExecP (fun t => (calls t).map pbody) (fun _ => (({} : Loc), [])) [] [0, 1, 0]
+    Q.sh = [(1, 5)] ∧ (Q.loc 0).2.map (fun r => (r.val, r.ok)) = [(5, true), (0, false)] ∧
+    (Q.loc 1).2.map (fun r => (r.val, r.ok)) = [(5, true)] ∧ Q.idx 0 = 2 := by
+  decide
 
 /-- SafeKV instance of `c12_atomic`: any goroutines, each performing any SafeKV call
 (the modelled bodies are the extracted ones, `c12_model_matches_facts`). -/
